@@ -101,6 +101,8 @@ type FnGen struct {
 	xexits      []xexit // exceptional exits (call may panic)
 	xtagBlock   map[int]int
 	inDeferX    bool
+	symHeap     string
+	symKeys     []string
 	lineTag     []int
 	curTag      int
 	anc         map[int]map[int]bool
@@ -209,6 +211,23 @@ func (g *FnGen) hget(st *State, key string) Term {
 }
 
 func (g *FnGen) hgetRaw(st *State, key string) Term {
+	if g.symHeap != "" {
+		// symbolic heap of a definitional axiom: every component is a bound variable
+		srt, ok := g.w.heapSort[key]
+		if !ok {
+			panic("unknown heap key " + key)
+		}
+		seen := false
+		for _, k := range g.symKeys {
+			if k == key {
+				seen = true
+			}
+		}
+		if !seen {
+			g.symKeys = append(g.symKeys, key)
+		}
+		return Term{q(g.symHeap + key), srt}
+	}
 	if t, ok := st.heap[key]; ok {
 		return t
 	}
@@ -225,6 +244,9 @@ func (g *FnGen) hgetRaw(st *State, key string) Term {
 	g.initHeap[key] = t
 	if key == "alloc" {
 		g.emit(fmt.Sprintf("(assert (>= %s 0))", t.S))
+	}
+	if strings.HasPrefix(key, "Mcard:") && g.symHeap == "" {
+		g.mapWF(&State{heap: map[string]Term{}}, key)
 	}
 	g.curTag = saved
 	return t
@@ -409,6 +431,7 @@ func (g *FnGen) Generate() {
 		g.params[fv.Name()] = SVal{t, fv.Type()}
 	}
 	// receiver of a method is never nil? No: Go allows nil receivers. Nothing assumed.
+	g.typClosed(st)
 	// global invariants and axioms
 	for _, c := range g.w.axioms {
 		env := g.envAt(st, st, nil)
@@ -477,6 +500,12 @@ func (g *FnGen) finishExceptional() {
 func (g *FnGen) runDefersX(st *State, reach string, n int) {
 	for i := n - 1; i >= 0; i-- {
 		d := g.defers[i]
+		if xb, ok := g.xtagBlock[g.curTag]; ok {
+			db := d.instr.Block().Index
+			if xb != db && !g.ancestors(xb)[db] {
+				continue
+			}
+		}
 		cond := fmt.Sprintf("(and %s %s)", reach, d.reach)
 		before := st.clone()
 		saveX := g.xexits
@@ -668,11 +697,12 @@ func (g *FnGen) mergeIn(b *ssa.BasicBlock, entry *State) (*State, string, [][2]i
 			st.heap[k] = ts[0]
 			continue
 		}
-		s := ts[len(ts)-1].S
-		for j := len(ts) - 2; j >= 0; j-- {
-			s = fmt.Sprintf("(ite %s %s %s)", incs[j].cond, ts[j].S, s)
+		// one constant per merged component, equal to the incoming value on each edge (friendlier to E-matching than ite terms)
+		h := g.declare(g.fresh("H:"+k), ts[0].Sort)
+		for j := range ts {
+			g.emit(fmt.Sprintf("(assert (=> %s (= %s %s)))", incs[j].cond, h.S, ts[j].S))
 		}
-		st.heap[k] = g.define(g.fresh("H:"+k), Term{s, ts[0].Sort})
+		st.heap[k] = h
 	}
 	var preds [][2]interface{}
 	for _, i := range incs {
@@ -769,6 +799,14 @@ func (g *FnGen) block(b *ssa.BasicBlock, entry *State) {
 			nw := g.havoc(st, k)
 			if k == "alloc" {
 				g.emit(fmt.Sprintf("(assert (>= %s %s))", nw.S, old.S))
+			}
+		}
+		if li.mods["alloc"] || li.mods["typ"] {
+			g.typClosed(st)
+		}
+		for _, k := range mk {
+			if strings.HasPrefix(k, "Mcard:") {
+				g.mapWF(st, k)
 			}
 		}
 		for _, in := range b.Instrs {
@@ -1477,7 +1515,8 @@ func (g *FnGen) mapCardFacts(st *State, mt *types.Map, m Term) {
 	c := fmt.Sprintf("(select %s %s)", g.hget(st, card).S, m.S)
 	g.emit(fmt.Sprintf("(assert (>= %s 0))", c))
 	g.emit(fmt.Sprintf("(assert (=> (= %s 0) (forall ((k %s)) (not (select (select %s %s) k)))))", c, ks, g.hget(st, dom).S, m.S))
-	g.note("map cardinality: len(m)==0 implies no key present (axiom of finite maps)")
+	g.emit(fmt.Sprintf("(assert (=> (> %s 0) (exists ((k %s)) (select (select %s %s) k))))", c, ks, g.hget(st, dom).S, m.S))
+	g.note("map cardinality: len(m)==0 iff no key present (axiom of finite maps)")
 }
 
 func (g *FnGen) next(in *ssa.Next, st *State, reach string) {
@@ -1596,6 +1635,12 @@ func (g *FnGen) runDefers(st *State, reach string, exceptional bool) {
 	}
 	for i := len(g.defers) - 1; i >= 0; i-- {
 		d := g.defers[i]
+		if g.curInstr != nil && g.curInstr.Block() != nil {
+			cb, db := g.curInstr.Block().Index, d.instr.Block().Index
+			if cb != db && !g.ancestors(cb)[db] {
+				continue // the defer statement is not on any path to this return
+			}
+		}
 		cond := fmt.Sprintf("(and %s %s)", reach, d.reach)
 		before := st.clone()
 		g.call(d.instr, d.instr.Common(), st, cond, nil)
@@ -1607,4 +1652,34 @@ func (g *FnGen) runDefers(st *State, reach string, exceptional bool) {
 			}
 		}
 	}
+}
+
+// typClosed: only allocated references carry a type tag (the tag is ghost state written at allocation only)
+func (g *FnGen) typClosed(st *State) {
+	g.w.heapSort["typ"] = "(Array Int Int)"
+	t := g.hget(st, "typ")
+	a := g.allocTerm(st)
+	g.emit(fmt.Sprintf("(assert (forall ((r Int)) (! (=> (not (= (select %s r) 0)) (and (< 0 r) (<= r %s))) :pattern ((select %s r)))))", t.S, a.S, t.S))
+}
+
+// mapWF: well-formedness of the map model for a (possibly havoced) heap version: cardinality is non-negative and
+// zero exactly when no key is present. The invariant is maintained by construction by MakeMap/update/delete/clear.
+func (g *FnGen) mapWF(st *State, cardKey string) {
+	name := strings.TrimPrefix(cardKey, "Mcard:")
+	domKey := "Mdom:" + name
+	ds, ok := g.w.heapSort[domKey]
+	if !ok {
+		return
+	}
+	// key sort from "(Array Int (Array K Bool))"
+	inner := ds[len("(Array Int (Array ") : len(ds)-len(" Bool))")]
+	c, d := g.hget(st, cardKey).S, g.hget(st, domKey).S
+	// keys present in a map are values of the key type
+	if kt, ok := g.w.mapKeyTypes[name]; ok {
+		if facts := g.typeFacts(Term{"k", inner}, kt, nil); len(facts) > 0 && inner == "Int" {
+			g.emit(fmt.Sprintf("(assert (forall ((m Int) (k Int)) (! (=> (select (select %s m) k) %s) :pattern ((select (select %s m) k)))))", d, facts[0], d))
+		}
+	}
+	g.emit(fmt.Sprintf("(assert (forall ((m Int)) (! (and (>= (select %s m) 0) (=> (= (select %s m) 0) (forall ((k %s)) (not (select (select %s m) k)))) (=> (> (select %s m) 0) (exists ((k %s)) (select (select %s m) k)))) :pattern ((select %s m)))))",
+		c, c, inner, d, c, inner, d, c))
 }
